@@ -2845,6 +2845,8 @@ bn_calc_jsf(bn_p a, bn_p b, size_t jsf_arr_size,
 		return (EOVERFLOW);
 	BN_RET_ON_ERR(bn_assign_init(&tmA, a));
 	BN_RET_ON_ERR(bn_assign_init(&tmB, b));
+	bn_init_digits__int(&tmA, 1); /* num[0] is read even when the value is zero. */
+	bn_init_digits__int(&tmB, 1);
 
 	while ((0 == bn_is_zero(&tmA) || 0 != d0) ||
 	    (0 == bn_is_zero(&tmB) || 0 != d1)) {
